@@ -40,3 +40,5 @@ func timeouts(q, t time.Duration) func(string) time.Duration {
 		return q
 	}
 }
+
+func sortStrings(s []string) { sort.Strings(s) }
